@@ -50,6 +50,7 @@ CLAIMS = {
     "C31": {"text": "A plan is returned by the interpreted-functions planner only under a dominating VALID validation of that very plan against the original problem; SOLVED_OPTIMALLY only where incomplete is false, decreasing-weight powerset order, every status classified; dataclass hook spelling.", "note": NOTE, "technique": "dominance / must-pass-through + enum exhaustiveness"},
     "C32": {"text": "Per operation-mode branch, every optional requirement is asserted None or checked through the matching engine predicate; selection returns only checked engines, else raises; registry agreement.", "note": NOTE, "technique": "decision-table coverage over an if-chain + CFG exit rule"},
     "C33": {"text": "hash uses the same filtered view of the features as eq; operators do not mutate operands (alias analysis through a helper that may return its parameter); upgrade table completeness and deprecated-feature removal.", "note": NOTE, "technique": "may-return-parameter summary + mutator-on-alias rule; table agreement"},
+    "C34": {"text": "What counts as a precedence (all five filters dominate the append, failed filters end the translation), an order is reported only when every temporal constraint became a precedence, total order only with a unique leading task at every step, and the returned object carries the extracted precedences. The ordering procedure itself on concrete relations is not decided.", "note": NOTE, "technique": "dominating-guard facts + shape rules (ast/CFG)"},
     "C35": {"text": "Per-fluent default source consulted for the deterministic clone; hidden state drawn from all oneof/or constraints before the simulator exists; apply delegates to the simulator and reads observations from the successor.", "note": NOTE, "technique": "must-consult + CFG ordering"},
     "C36": {"text": "Reads and child creation do not write the state, lookup order values->ancestors->default->raise, updates win when the chain is flattened, eq/hash after condensation.", "note": NOTE + " Several clauses match the current shape of UPState (tier-B).", "technique": "no-store-through-self rule + shape rules"},
     "C38": {"text": "Every list-head token the PDDL writer emits is reserved; the two renaming maps are written together and only in one place; the substituted character class is exactly the complement of the identifier alphabet (regex syntax tree); keyword avoidance runs on the final spelling; ANML counterpart.", "note": NOTE, "technique": "vocabulary extraction from string literals; regex AST (re._parser); ownership rule"},
@@ -62,6 +63,5 @@ NOT_APPLICABLE = {
     "C26": "consistency of generated temporal constraints with concrete start times is arithmetic over runtime rationals; nothing structural is necessary for it beyond the clauses of C25/C27",
     "C29": "pairing of start/end events by time stamps in two loops; inverse-ness depends on runtime ordering of equal-parameter instances",
     "C30": "soundness/completeness of a 1000-line translation (tags, merge actions, relevance basis) is not a path, pairing or table property",
-    "C34": "correctness of a 25-line topological procedure over all relations on <=5 tasks is a finite combinatorial enumeration, i.e. execution, not static analysis",
     "C37": "per-state equivalence of original and compiled actions; the shared splitting helpers are covered only as far as C12 reaches",
 }
